@@ -30,7 +30,7 @@ ANCHORS = ['pfhedge.nn.functional:bs_european_price',
            'pfhedge.nn.functional:bs_lookback_price']
 DECIDING = ["parity.european", "parity.binary", "bounds.call", "bounds.binaries", "monotone.spot", "convex.spot", "monotone.vol", "monotone.time",
             "lookback.dominance", "american.dominance", "american.one_at_barrier", "continuity.lookback", "continuity.american"]
-REQUIRED_BRANCHES = ["max==strike>spot", "float32", "float64"]
+REQUIRED_BRANCHES = ["via.module", "via.fn", "max==strike>spot", "float32", "float64"]
 
 NB = 256
 
@@ -58,12 +58,26 @@ def drv_relations(ctx, k, rng):
     e = float(torch.finfo(dtype).eps)
     c = 64 if dtype == F64 else 128
     s, tt, v, K, m = pts(rng, dtype)
+    via = pick(rng, ["fn", "fn", "module"])
+    ctx.branch("via." + via)
+    if via == "module":
+        # the pricing modules are the other public surface of the same formulas (scalar strike per module)
+        from pfhedge.nn import BSAmericanBinaryOption, BSEuropeanBinaryOption, BSEuropeanOption, BSLookbackOption
+
+        k0 = float(pick(rng, [1.0, 0.6, 2.5]))
+        K = torch.full_like(K, k0)
+        P_eu = lambda s_, t_, v_, strike=None, call=True: BSEuropeanOption(call=call, strike=k0).price(s_, t_, v_)  # noqa: E731
+        P_eb = lambda s_, t_, v_, call=True: BSEuropeanBinaryOption(call=call, strike=k0).price(s_, t_, v_)  # noqa: E731
+        P_ab = lambda s_, m_, t_, v_: BSAmericanBinaryOption(strike=k0).price(s_, m_, t_, v_)  # noqa: E731
+        P_lb = lambda s_, m_, t_, v_, strike=None: BSLookbackOption(strike=k0).price(s_, m_, t_, v_)  # noqa: E731
+    else:
+        P_eu, P_eb, P_ab, P_lb = F.bs_european_price, F.bs_european_binary_price, F.bs_american_binary_price, F.bs_lookback_price
     if bool(((m == 0) & (s < 0)).any()):
         ctx.branch("max==strike>spot")
     S = K * s.exp()
     M = K * m.exp()
     sl = c * e * (S + K)
-    sig = (str(dtype),)
+    sig = (str(dtype), via)
 
     def rep(mon, ok, msg, **kw):
         ctx.seen(mon)
@@ -77,34 +91,34 @@ def drv_relations(ctx, k, rng):
             ctx.violation(mon, mon, msg + f" at s={float(s[i])!r}, t={float(tt[i])!r}, sigma={float(v[i])!r}, K={float(K[i])!r}, m={float(m[i])!r}",
                           sig=(mon,) + sig, **det)
 
-    C = F.bs_european_price(s, tt, v, strike=K, call=True)
-    P = F.bs_european_price(s, tt, v, strike=K, call=False)
+    C = P_eu(s, tt, v, strike=K, call=True)
+    P = P_eu(s, tt, v, strike=K, call=False)
     rep("parity.european", (C - P - (S - K)).abs() <= sl, "call - put != S - K", call=C, put=P)
-    bc = F.bs_european_binary_price(s, tt, v, call=True)
-    bp = F.bs_european_binary_price(s, tt, v, call=False)
+    bc = P_eb(s, tt, v, call=True)
+    bp = P_eb(s, tt, v, call=False)
     rep("parity.binary", (bc + bp - 1).abs() <= c * e, "binary call + binary put != 1", call=bc, put=bp)
     rep("bounds.call", ((S - K).clamp(min=0) - sl <= C) & (C <= S + sl) & (P >= (K - S).clamp(min=0) - sl) & (P <= K + sl),
         "European price outside [intrinsic, spot] / [intrinsic, strike]", call=C, put=P)
-    ab = F.bs_american_binary_price(s, m, tt, v)
+    ab = P_ab(s, m, tt, v)
     rep("bounds.binaries", (bc >= 0) & (bc <= 1) & (bp >= 0) & (bp <= 1) & (ab >= -c * e) & (ab <= 1 + c * e),
         "binary price outside [0,1]", binary_call=bc, binary_put=bp, american=ab)
     # monotone / convex in the spot at fixed strike (pairs and triples)
     h = t(10 ** rng.uniform(-6, -0.5, NB), dtype)
-    C1 = F.bs_european_price(s + h, tt, v, strike=K, call=True)
+    C1 = P_eu(s + h, tt, v, strike=K, call=True)
     S1 = K * (s + h).exp()
     rep("monotone.spot", C1 >= C - sl, "call price decreases in the spot", c0=C, c1=C1, h=h)
     rep("monotone.spot", (C1 - C) <= (S1 - S) + c * e * (S1 + K), "call price grows faster than the spot (delta > 1)", c0=C, c1=C1, h=h)
     # convexity on equally spaced spots: C(S-d) + C(S+d) - 2 C(S) >= -slack
     d = S * t(10 ** rng.uniform(-4, -0.3, NB), dtype)
-    Cm = F.bs_european_price(((S - d) / K).log(), tt, v, strike=K, call=True)
-    Cp = F.bs_european_price(((S + d) / K).log(), tt, v, strike=K, call=True)
+    Cm = P_eu(((S - d) / K).log(), tt, v, strike=K, call=True)
+    Cp = P_eu(((S + d) / K).log(), tt, v, strike=K, call=True)
     rep("convex.spot", Cm + Cp - 2 * C >= -4 * c * e * (S + d + K), "call price not convex in the spot", c_minus=Cm, c0=C, c_plus=Cp, d=d)
     f = 1 + t(10 ** rng.uniform(-6, 0, NB), dtype)
-    Cv = F.bs_european_price(s, tt, v * f, strike=K, call=True)
+    Cv = P_eu(s, tt, v * f, strike=K, call=True)
     rep("monotone.vol", Cv >= C - sl, "call price decreases with volatility", c0=C, c1=Cv, factor=f)
-    Ct = F.bs_european_price(s, tt * f, v, strike=K, call=True)
+    Ct = P_eu(s, tt * f, v, strike=K, call=True)
     rep("monotone.time", Ct >= C - sl, "call price decreases with time to maturity", c0=C, c1=Ct, factor=f)
-    lb = F.bs_lookback_price(s, m, tt, v, strike=K)
+    lb = P_lb(s, m, tt, v, strike=K)
     rep("lookback.dominance", (lb >= C - c * e * (S + K + M)) & (lb >= (M - K).clamp(min=0) - c * e * (S + K + M)),
         "lookback call < European call or < locked-in payoff", lookback=lb, european=C, locked=(M - K).clamp(min=0))
     rep("american.dominance", ab >= bc - c * e, "American binary < European binary", american=ab, european=bc)
@@ -114,12 +128,12 @@ def drv_relations(ctx, k, rng):
     em = t(10 ** rng.uniform(-9, -1, NB), dtype)
     lo, hi = (1 - em).log(), (1 + em).log()
     s2 = torch.minimum(s, lo)  # spot at or below the running maximum
-    lb_lo = F.bs_lookback_price(s2, lo, tt, v, strike=K)
-    lb_hi = F.bs_lookback_price(s2, hi, tt, v, strike=K)
+    lb_lo = P_lb(s2, lo, tt, v, strike=K)
+    lb_hi = P_lb(s2, hi, tt, v, strike=K)
     S2 = K * s2.exp()
     rep("continuity.lookback", (lb_hi - lb_lo).abs() <= 4 * K * em + c * e * (S2 + 3 * K), "lookback price jumps where the running maximum crosses the strike",
         below=lb_lo, above=lb_hi, rel_distance=em)
-    ab_lo = F.bs_american_binary_price(lo, lo, tt, v)
+    ab_lo = P_ab(lo, lo, tt, v)
     w = v * tt.sqrt()
     rep("continuity.american", (1 - ab_lo).abs() <= em * 2 * (1 + 1 / w) + c * e, "American binary price jumps where the running maximum crosses the strike",
         just_below=ab_lo, rel_distance=em)
